@@ -1,10 +1,10 @@
-import Ldlm.Proofs.CoreMain
+import Ldlm.Proofs.CoreRestart
 import Ldlm.Props.C17
 /-!
 C08 — Admin listing, state file and lock table describe the same holds.
 
 Model M2 is sequential, so every state is quiescent.  For every state satisfying the reachability
-invariant `Inv'` (every reachable state does — `Core.run_inv`):
+invariant `Inv'` (every state reachable by any history, restarts included, does — `reachable`):
 
 * `listed_is_held`  — every hold in the listing (session table) occupies capacity in the lock table,
                       under the same name, key and size.  No hypothesis on the configuration.
@@ -82,5 +82,20 @@ theorem noclear_views_differ :
 def cfgClear : Cfg := { cfgNoClear with noClear := false }
 example : (run flatOps cfgClear (k1History.take 2)).sessions = [(s1, [⟨[97], cfgClear.genKey 0, 1⟩])] := by decide
 example : (AMap.get (run flatOps cfgClear k1History).locks [97]).map (·.keys) = some [] := by decide
+
+/-! ### for every reachable state -/
+
+theorem reachable (ho : o.Lawful) (hinj : KeysInjective c) (ops : List Op) : Inv' o c (run o c ops) :=
+  (run_invS ho hinj ops).1
+
+/-- after ANY history (restarts included) whatever the listing shows occupies capacity, … -/
+theorem listed_is_held_reachable (ho : o.Lawful) (hinj : KeysInjective c) (ops : List Op) (n k : Str) (sz : Int)
+    (hl : listed (run o c ops) n k sz) : heldWith o (run o c ops) n k sz :=
+  listed_is_held (reachable ho hinj ops) n k sz hl
+
+/-- … and with clearing on disconnect the two views agree exactly -/
+theorem views_agree_reachable (ho : o.Lawful) (hinj : KeysInjective c) (hnc : c.noClear = false) (ops : List Op)
+    (n k : Str) (sz : Int) : listed (run o c ops) n k sz ↔ heldWith o (run o c ops) n k sz :=
+  views_agree_partial (reachable ho hinj ops) hnc n k sz
 
 end Ldlm.Props.C08
